@@ -2,7 +2,9 @@
 //!
 //! `c15 digest`   case `<kind> <hexsrc> <hexlex|-> ; <tok names> ; ...`
 //!     prints ONE line: ` # `-separated transcript of all YaccGrammar / StateGraph /
-//!     StateTable queries + parse outcomes (recovery off).  Sections whose tag starts
+//!     StateTable queries + parse outcomes (recovery off) + (if the case has a lexer) the run-time lexer definition built from
+//!     the lexer source (`LQ` start states, `LU` rules with token id, name, regex, `start_states()` IN ORDER, target
+//!     state).  Sections whose tag starts
 //!     with `I` are informational (documented freedoms: order of the conflict lists,
 //!     which of several equivalent core reduces is kept, pretty-printer hashes) and are
 //!     not part of the verdict.
@@ -20,6 +22,12 @@
 //!     times in this process, every time with a freshly constructed map (own hash keys) into its own directory;
 //!     prints `LGEN <ok|err …|panic>` and `F g.l.rs <len> <hash>` per repetition.  Further knobs: st=u8|u16|u32,
 //!     api=build|pf (deprecated `process_file`), mod, vis, ed, lk, amtl, amtp, sw, wae, ci.
+//!     Per repetition a third section `RS <start states of rule 0>;<of rule 1>;…` gives `Rule::start_states()` of every rule of
+//!     the run-time definition (`LRNonStreamingLexerDef::from_str`) of the same source, built afresh in that repetition.
+//! `c15 tokmap`   case `M <NAME=id,…> <NAME=NEWNAME,…|-> <k=v,…|->` (names hex): `CTTokenMapBuilder::new("tokmap", map)
+//!     [.rename_map(..)] [.allow_dead_code(..)].build()` `reps` times, every time from a freshly constructed HashMap, into its
+//!     own OUT_DIR; prints `TGEN <ok|err …|panic …>` and `F tokmap.rs <len> <hash>` per repetition.  Knobs: st=u8|u16|u32,
+//!     adc=0|1, fn=1 (the deprecated free function `ct_token_map`), reps.
 //! `c15 threads`  same case line; serialises grammar+table as the generated code does,
 //!     8 threads first-use one `OnceLock`-guarded `_reconstitute` at the same time and
 //!     each parses all inputs on the shared data; every thread must print what the
@@ -271,6 +279,56 @@ fn parse_outcome_with(grm: &cfgrammar::yacc::YaccGrammar<u32>, st: &StateTable<u
     }
 }
 
+/// `Rule::start_states()` of every rule, in order (rules separated by `;`)
+fn rule_start_states(lex: &str) -> String {
+    use lrlex::LexerDef;
+    match catch(std::panic::AssertUnwindSafe(|| lrlex::LRNonStreamingLexerDef::<LT>::from_str(lex))) {
+        Err(_) => "panic".to_string(),
+        Ok(Err(es)) => format!("err{}", es.len()),
+        Ok(Ok(ld)) => ld
+            .iter_rules()
+            .map(|r| if r.start_states().is_empty() { "-".to_string() } else { r.start_states().iter().map(|x| x.to_string()).collect::<Vec<_>>().join(".") })
+            .collect::<Vec<_>>()
+            .join(";"),
+    }
+}
+
+/// the run-time lexer definition of a lexer source (rule ids set from the grammar's token map)
+fn lexer_transcript(lex: &str, grm: &cfgrammar::yacc::YaccGrammar<u32>) -> String {
+    use lrlex::LexerDef;
+    let r = catch(std::panic::AssertUnwindSafe(|| lrlex::LRNonStreamingLexerDef::<LT>::from_str(lex)));
+    let mut ld = match r {
+        Err(_) => return "LX panic".to_string(),
+        Ok(Err(es)) => return format!("LX err {}", es.len()),
+        Ok(Ok(ld)) => ld,
+    };
+    let map: std::collections::HashMap<&str, u32> = grm.tokens_map().iter().map(|(n, t)| (*n, u32::from(*t))).collect();
+    let (mfl, mfp) = ld.set_rule_ids(&map);
+    let sorted = |x: Option<std::collections::HashSet<&str>>| -> String {
+        let mut v: Vec<String> = x.map(|s| s.iter().map(|n| hex(n)).collect()).unwrap_or_default();
+        v.sort();
+        v.join(",")
+    };
+    let mut o = format!("LX ok mfl={} mfp={}", sorted(mfl), sorted(mfp));
+    for (i, ss) in ld.iter_start_states().enumerate() {
+        write!(o, " # LQ {} {}", i, hex(&format!("{:?}", ss))).unwrap();
+    }
+    for (i, r) in ld.iter_rules().enumerate() {
+        write!(
+            o,
+            " # LU {} {} {} {} {} {}",
+            i,
+            r.tok_id().map(|t| t.to_string()).unwrap_or_else(|| "-".into()),
+            r.name().map(|n| format!("s{}", hex(n))).unwrap_or_else(|| "-".into()),
+            hex(r.re_str()),
+            if r.start_states().is_empty() { "-".to_string() } else { r.start_states().iter().map(|x| x.to_string()).collect::<Vec<_>>().join(".") },
+            hex(&format!("{:?}", r.target_state()))
+        )
+        .unwrap();
+    }
+    o
+}
+
 struct Case {
     kind: String,
     src: String,
@@ -404,6 +462,10 @@ fn digest(line: &str) -> String {
             write!(o, " {}", t).unwrap();
         }
         write!(o, " # O {}", parse_outcome_with(&b.grm, &b.st, &toks, RecoveryKind::None)).unwrap();
+    }
+    if let Some(lex) = &c.lex {
+        o.push_str(" # ");
+        o.push_str(&lexer_transcript(lex, &b.grm));
     }
     o
 }
@@ -640,6 +702,7 @@ macro_rules! lexgen_for {
                     }
                     Err(_) => write!(out, " # F g.l.rs - -").unwrap(),
                 }
+                write!(out, " # RS {}", rule_start_states(lex)).unwrap();
             }
             if std::env::var("C15_KEEP").is_ok() {
                 write!(out, " # DIR {}", dir).unwrap();
@@ -676,6 +739,108 @@ fn lexgen(line: &str) -> String {
         Some("u8") => lexgen_u8(&lex, &map, has_map, &o),
         Some("u16") => lexgen_u16(&lex, &map, has_map, &o),
         _ => lexgen_u32(&lex, &map, has_map, &o),
+    }
+}
+
+// -------------------------------------------------------------- tokmap mode
+
+macro_rules! tokmap_for {
+    ($name:ident, $t:ty) => {
+        fn $name(map: &[(String, u64)], ren: &Option<Vec<(String, String)>>, o: &std::collections::HashMap<String, String>) -> String {
+            let n = COUNTER.fetch_add(1, Ordering::SeqCst);
+            let dir = format!("/verif/.work/c15/{}-M{}", std::process::id(), n);
+            std::fs::create_dir_all(&dir).expect("mkdir");
+            let reps: usize = o.get("reps").and_then(|x| x.parse().ok()).unwrap_or(1);
+            let mut out = String::new();
+            for rep in 0..reps {
+                let rdir = format!("{}/r{}", dir, rep);
+                std::fs::create_dir_all(&rdir).expect("mkdir");
+                // a FRESH map per repetition: equal to all the others, own hash keys; insertion order rotated
+                let mut m: std::collections::HashMap<String, $t> = std::collections::HashMap::new();
+                for i in 0..map.len() {
+                    let (k, v) = &map[(i + rep * 3) % map.len()];
+                    m.insert(k.clone(), *v as $t);
+                }
+                std::env::set_var("OUT_DIR", &rdir);
+                let r = catch(std::panic::AssertUnwindSafe(|| {
+                    if o.get("fn").map(|v| v == "1").unwrap_or(false) {
+                        let rm: Option<std::collections::HashMap<&str, &str>> =
+                            ren.as_ref().map(|v| v.iter().map(|(a, b)| (a.as_str(), b.as_str())).collect());
+                        lrlex::ct_token_map::<$t>("tokmap", &m, rm.as_ref()).map_err(|e| format!("{}", e))
+                    } else {
+                        let mut b = lrlex::CTTokenMapBuilder::<$t>::new("tokmap", &m);
+                        if let Some(v) = ren {
+                            b = b.rename_map(Some(v.clone()));
+                        }
+                        if let Some(v) = o.get("adc") {
+                            b = b.allow_dead_code(v == "1");
+                        }
+                        b.build().map_err(|e| format!("{}", e))
+                    }
+                }));
+                std::env::remove_var("OUT_DIR");
+                if rep > 0 {
+                    out.push_str(" # ");
+                }
+                match r {
+                    Err(mm) => write!(out, "TGEN panic {}", mm.replace('\n', " ").replace('#', "")).unwrap(),
+                    Ok(Err(e)) => write!(out, "TGEN err {}", e.replace('\n', " ").replace('#', "").replace(&dir, "<DIR>")).unwrap(),
+                    Ok(Ok(())) => write!(out, "TGEN ok").unwrap(),
+                }
+                match std::fs::read(format!("{}/tokmap.rs", rdir)) {
+                    Ok(bytes) => {
+                        let nb = normalise(&bytes, &dir);
+                        write!(out, " # F tokmap.rs {} {:016x}{:016x}", nb.len(), fnv(&nb), poly(&nb)).unwrap();
+                    }
+                    Err(_) => write!(out, " # F tokmap.rs - -").unwrap(),
+                }
+            }
+            if std::env::var("C15_KEEP").is_ok() {
+                write!(out, " # DIR {}", dir).unwrap();
+            } else {
+                std::fs::remove_dir_all(&dir).ok();
+            }
+            out
+        }
+    };
+}
+tokmap_for!(tokmap_u8, u8);
+tokmap_for!(tokmap_u16, u16);
+tokmap_for!(tokmap_u32, u32);
+
+fn tokmap(line: &str) -> String {
+    let mut hs = line.split_whitespace();
+    if hs.next() != Some("M") {
+        return "BADCASE".to_string();
+    }
+    let mut map: Vec<(String, u64)> = Vec::new();
+    for kv in hs.next().unwrap_or("").split(',').filter(|x| !x.is_empty()) {
+        match kv.split_once('=') {
+            Some((k, v)) => map.push((unhex(k), v.parse().unwrap_or(0))),
+            None => return "BADCASE".to_string(),
+        }
+    }
+    let ren = match hs.next() {
+        None | Some("-") => None,
+        Some(x) => {
+            let mut v = Vec::new();
+            for kv in x.split(',').filter(|x| !x.is_empty()) {
+                match kv.split_once('=') {
+                    Some((a, b)) => v.push((unhex(a), unhex(b))),
+                    None => return "BADCASE".to_string(),
+                }
+            }
+            Some(v)
+        }
+    };
+    let o = parse_opts(hs.next());
+    if map.is_empty() {
+        return "BADCASE".to_string();
+    }
+    match o.get("st").map(|x| x.as_str()) {
+        Some("u8") => tokmap_u8(&map, &ren, &o),
+        Some("u16") => tokmap_u16(&map, &ren, &o),
+        _ => tokmap_u32(&map, &ren, &o),
     }
 }
 
@@ -798,6 +963,7 @@ fn main() {
         "gen" => gen(line),
         "threads" => threads(line),
         "lexgen" => lexgen(line),
+        "tokmap" => tokmap(line),
         _ => "BADMODE".to_string(),
     });
 }
